@@ -518,3 +518,582 @@ Proof.
   change (idx_triple (mkIdx 0 [] 0 [])) with idx0.
   destruct (idx_fold fs idx0) as [t|err| |]; reflexivity.
 Qed.
+
+(* ---- DBI.Next and the full iteration = the entries pass ---- *)
+
+(* the first entry of a field list, and the fields after it *)
+Fixpoint next_spec (fs : list field) : res (option (kv * list field)) :=
+  match fs with
+  | [] => Ok None
+  | (num, v) :: r =>
+      if num =? 2 then match v with WLen q => do e <- spec_kv q; Ok (Some (e, r)) | _ => E end
+      else next_spec r
+  end.
+
+Lemma ent_fold_next fs : forall acc,
+  ent_fold fs acc = (do r <- next_spec fs;
+                     match r with None => Ok acc | Some (e, fs') => ent_fold fs' (acc ++ [e]) end).
+Proof.
+  induction fs as [|[num v] fs IH]; intros acc; [reflexivity|].
+  cbn [ent_fold next_spec]. unfold ent_step. destruct (num =? 2).
+  - destruct v; cbn [bind]; try reflexivity. destruct (spec_kv p); reflexivity.
+  - cbn [bind]. apply IH.
+Qed.
+
+Lemma next_loop_safe_fuel p fuel off : (0 <= off <= zlen p)%Z -> (zlen p <= max_int)%Z ->
+  (Z.to_nat (zlen p - off) < fuel)%nat -> safe (fun _ => True) (loop (next_body p) fuel off).
+Proof.
+  intros Ho Hmax Hf.
+  apply (loop_safe (next_body p) (fun o => (0 <= o <= zlen p)%Z) (fun o => Z.to_nat (zlen p - o))); try assumption.
+  intros o Hoo. eapply safe_weaken; [apply (next_body_safe p o Hoo Hmax)|].
+  intros [o'|[[o' wt]|]] H; first [lia|exact I].
+Qed.
+
+Lemma next_loop_skip p cur off' : (0 <= cur <= zlen p)%Z -> (zlen p <= max_int)%Z ->
+  next_body p cur = Ok (inl off') -> (cur < off' <= zlen p)%Z ->
+  loop (next_body p) (S (length p)) cur = loop (next_body p) (S (length p)) off'.
+Proof.
+  intros Hc Hmax Hb Ho. cbn [loop]. rewrite Hb.
+  pose proof (next_loop_safe_fuel p (length p) off' ltac:(lia) Hmax ltac:(unfold zlen in *; lia)) as Hs.
+  symmetry. apply (loop_fuel_mono (next_body p) (length p) (S (length p)) off'); [reflexivity| |lia].
+  intros Hx. rewrite Hx in Hs. exact Hs.
+Qed.
+
+Lemma next_body_sim data off rest num v rest' :
+  pos data off rest -> (zlen data <= max_int)%Z -> parse_field rest = Some ((num, v), rest') ->
+  exists key r1 off1, vspec rest = Some (key, r1) /\ key / 8 = num /\ pos data off1 r1 /\ (off < off1)%Z /\
+    if num =? 2 then next_body data off = Ok (inr (Some (off1, key mod 8)))
+    else exists off', pos data off' rest' /\ (off1 < off' <= zlen data)%Z /\ next_body data off = Ok (inl off').
+Proof.
+  intros Hp Hmax Hf. destruct (parse_field_shape _ _ _ _ Hf) as [Hs Hnum].
+  destruct (shape_key _ _ _ _ Hs) as (key & r1 & Hk & Hkn).
+  destruct (pos_varint _ _ _ _ _ Hp Hk) as (n0 & Hd0 & Hn0 & Hp1 & _).
+  exists key, r1, (off + n0)%Z. repeat (split; [first [assumption|lia]|]).
+  assert (Hne : rest <> []) by (intros ->; discriminate).
+  pose proof (pos_not_end _ _ _ Hp Hne) as Hend.
+  unfold next_body. replace (zlen data <=? off)%Z with false by lia.
+  rewrite (pos_slice _ _ _ Hp). cbn [bind]. rewrite Hd0. cbn [bind]. rewrite Hkn.
+  destruct (num =? 2); [reflexivity|].
+  destruct (skip_tag_shape _ _ _ _ _ _ _ _ Hmax Hk Hp1 Hs) as (nsk & Hsk & Hn & Hpsk).
+  exists (off + n0 + nsk)%Z. split; [exact Hpsk|]. split; [destruct Hpsk; lia|].
+  rewrite (pos_slice _ _ _ Hp1). cbn [bind]. rewrite Hsk. reflexivity.
+Qed.
+
+Lemma dbi_next_sim p : (zlen p <= max_int)%Z -> forall fs cur rest,
+  pos p cur rest -> wire_parse rest = Some fs -> forallb dbi_field_ok fs = true ->
+  match next_spec fs with
+  | Ok None => dbi_next p cur = Ok None
+  | Ok (Some (e, fs')) =>
+      exists cur' rest', dbi_next p cur = Ok (Some (e, cur')) /\ pos p cur' rest' /\
+                         wire_parse rest' = Some fs' /\ forallb dbi_field_ok fs' = true /\
+                         (length rest' < length rest)%nat
+  | Err _ => dbi_next p cur = E
+  | _ => False
+  end.
+Proof.
+  intros Hmax. induction fs as [|[num v] fs IH]; intros cur rest Hp Hw Hok.
+  - apply wire_parse_nil_inv in Hw. subst rest. cbn [next_spec].
+    unfold dbi_next. cbn [loop]. unfold next_body. rewrite (pos_end _ _ Hp), Z.leb_refl. reflexivity.
+  - destruct (wire_parse_inv _ _ _ Hw) as (r & Hpf & Hwr & _).
+    cbn [forallb] in Hok. apply andb_prop in Hok. destruct Hok as [Hok1 Hok].
+    pose proof (parse_field_shorter _ _ _ Hpf) as Hshort.
+    destruct (next_body_sim p cur rest num v r Hp Hmax Hpf) as (key & r1 & off1 & Hk & Hkn & Hp1 & Hlt & Hb).
+    cbn [next_spec]. destruct (num =? 2) eqn:N2.
+    + (* the entries tag: Next reads the entry here *)
+      unfold dbi_next. cbn [loop]. rewrite Hb. cbn [bind].
+      destruct (parse_field_shape _ _ _ _ Hpf) as [Hs _].
+      destruct Hs as [key' r1' x r' Hk' _ Hwt Hv|key' r1' Hk' _ Hwt Hl|key' r1' l r2 Hk' _ Hwt Hv Hl|key' r1' Hk' _ Hwt Hl];
+        rewrite Hk in Hk'; inversion Hk'; subst key' r1'; clear Hk';
+        try (wt_eval Hwt; reflexivity).
+      wt_eval Hwt.
+      destruct (pos_varint _ _ _ _ _ Hp1 Hv) as (n & Hd & Hn & Hp2 & _).
+      destruct (len_check_ok _ _ _ _ Hp2 Hmax Hl) as (Hc & Hi & Hle & Hnat).
+      assert (Hle' : (N.to_nat l <= length r2)%nat) by lia.
+      pose proof (pos_skip _ _ _ _ Hp2 Hle') as Hp3.
+      rewrite (pos_slice _ _ _ Hp1). cbn [bind]. rewrite Hd. cbn [bind].
+      rewrite Hc, Hi, Hnat. rewrite (pos_take _ _ _ _ Hp2 Hle'). cbn [bind].
+      set (q := firstn (N.to_nat l) r2) in *.
+      unfold dbi_field_ok in Hok1. rewrite N2 in Hok1.
+      assert (Hq : (zlen q <= max_int)%Z).
+      { unfold q, zlen. rewrite firstn_length. pose proof (pos_zlen _ _ _ Hp2). destruct Hp2. unfold zlen in *. lia. }
+      rewrite (kv_unmarshal_spec q Hq Hok1).
+      destruct (spec_kv_okE q) as [[e He]|He]; rewrite He; cbn [bind]; [|reflexivity].
+      exists (off1 + n + Z.of_nat (N.to_nat l))%Z, (skipn (N.to_nat l) r2).
+      repeat (split; [first [reflexivity|assumption]|]). exact Hshort.
+    + (* another field: skipped inside the same Next call *)
+      destruct Hb as (off' & Hp' & Ho' & Hb).
+      assert (Heq : dbi_next p cur = dbi_next p off').
+      { unfold dbi_next. rewrite (next_loop_skip p cur off' (proj1 Hp) Hmax Hb ltac:(lia)). reflexivity. }
+      rewrite Heq. specialize (IH off' r Hp' Hwr Hok).
+      destruct (next_spec fs) as [[[e fs']|]|err| |]; try exact IH.
+      destruct IH as (cur' & rest' & H1 & H2 & H3 & H4 & H5).
+      exists cur', rest'. repeat (split; [assumption|]). lia.
+Qed.
+
+Lemma next_spec_okE fs : okE (next_spec fs).
+Proof.
+  induction fs as [|[num v] fs IH]; cbn [next_spec]; [apply okE_Ok|].
+  destruct (num =? 2); [|exact IH]. destruct v; try apply okE_E.
+  apply okE_bind; [apply spec_kv_okE|intros; apply okE_Ok].
+Qed.
+
+Lemma entries_loop_sim p : (zlen p <= max_int)%Z -> forall fuel fs cur rest acc,
+  pos p cur rest -> wire_parse rest = Some fs -> forallb dbi_field_ok fs = true ->
+  (length rest < fuel)%nat ->
+  loop (entries_body p) fuel (cur, acc) = ent_fold fs acc.
+Proof.
+  intros Hmax. induction fuel as [|fuel IH]; intros fs cur rest acc Hp Hw Hok Hf; [lia|].
+  cbn [loop]. unfold entries_body. rewrite ent_fold_next.
+  pose proof (dbi_next_sim p Hmax fs cur rest Hp Hw Hok) as Hn.
+  destruct (next_spec_okE fs) as [[[[e fs']|] Hs]|Hs]; rewrite Hs in Hn |- *; cbn [bind].
+  - destruct Hn as (cur' & rest' & -> & Hp' & Hw' & Hok' & Hlen). cbn [bind].
+    apply (IH fs' cur' rest' (acc ++ [e]) Hp' Hw' Hok'). lia.
+  - rewrite Hn. reflexivity.
+  - unfold E in Hn. rewrite Hn. reflexivity.
+Qed.
+
+Theorem all_entries_spec p fs : (zlen p <= max_int)%Z -> wire_parse p = Some fs ->
+  forallb dbi_field_ok fs = true -> all_entries p = ent_fold fs [].
+Proof.
+  intros Hmax Hw Hok. unfold all_entries.
+  apply (entries_loop_sim p Hmax (S (length p)) fs 0%Z p [] (pos_start p) Hw Hok). lia.
+Qed.
+
+(* ---- the csproto Decoder operations on grammatical input ---- *)
+
+Lemma key_decompose key : key = 8 * (key / 8) + key mod 8.
+Proof. pose proof (N.div_mod key 8 ltac:(lia)). lia. Qed.
+
+Lemma dec_tag_sim p off rest key r1 : pos p off rest -> vspec rest = Some (key, r1) ->
+  1 <= key / 8 <= MaxTagNumber ->
+  exists off1, dec_tag p off = Ok (key / 8, key mod 8, off1) /\ pos p off1 r1 /\ (off < off1)%Z.
+Proof.
+  intros Hp Hk Hn. destruct (pos_varint _ _ _ _ _ Hp Hk) as (n0 & Hd0 & Hn0 & Hp1 & _).
+  exists (off + n0)%Z. split; [|split; [exact Hp1|lia]].
+  assert (Hne : rest <> []) by (intros ->; discriminate).
+  pose proof (pos_not_end _ _ _ Hp Hne) as Hend.
+  unfold dec_tag. replace (zlen p <=? off)%Z with false by lia.
+  rewrite (pos_slice _ _ _ Hp). cbn [bind]. rewrite Hd0. cbn [bind].
+  pose proof (key_decompose key) as Hkd. pose proof (N.mod_lt key 8 ltac:(lia)) as Hm.
+  unfold MaxTagNumber, MaxTagValue in *.
+  replace ((n0 <? 1)%Z || (key <? 1) || (536870911 <? key)) with false by lia. reflexivity.
+Qed.
+
+Lemma dec_bytes_sim ml p off r1 l r2 : pos p off r1 -> (zlen p <= max_int)%Z -> ml < two63 ->
+  vspec r1 = Some (l, r2) -> l <= lenN r2 -> l <= ml ->
+  exists off', dec_bytes ml p off = Ok (firstn (N.to_nat l) r2, off') /\ pos p off' (skipn (N.to_nat l) r2).
+Proof.
+  intros Hp Hmax Hml Hv Hl Hlm. destruct (pos_varint _ _ _ _ _ Hp Hv) as (n & Hd & Hn & Hp2 & _).
+  destruct (len_check_ok _ _ _ _ Hp2 Hmax Hl) as (Hc & Hi & Hle & Hnat).
+  assert (Hle' : (N.to_nat l <= length r2)%nat) by lia.
+  pose proof (pos_skip _ _ _ _ Hp2 Hle') as Hp3.
+  exists (off + n + Z.of_nat (N.to_nat l))%Z. split; [|exact Hp3].
+  assert (Hne : r1 <> []) by (intros ->; discriminate).
+  pose proof (pos_not_end _ _ _ Hp Hne) as Hend.
+  unfold dec_bytes. replace (zlen p <=? off)%Z with false by lia.
+  rewrite (pos_slice _ _ _ Hp). cbn [bind]. rewrite Hd. cbn [bind].
+  replace (n =? 0)%Z with false by lia. replace (ml <? l) with false by lia. rewrite Hi, Hnat.
+  destruct Hp3 as [Ho3 _]. replace (zlen p <? off + n + Z.of_nat (N.to_nat l))%Z with false by lia.
+  rewrite (pos_take _ _ _ _ Hp2 Hle'). reflexivity.
+Qed.
+
+Lemma dec_string_sim ml p off r1 l r2 : pos p off r1 -> (zlen p <= max_int)%Z -> ml < two63 ->
+  vspec r1 = Some (l, r2) -> l <= lenN r2 -> l <= ml ->
+  exists off', dec_string ml p off = Ok (firstn (N.to_nat l) r2, off') /\ pos p off' (skipn (N.to_nat l) r2).
+Proof.
+  intros Hp Hmax Hml Hv Hl Hlm.
+  assert (Hne : r1 <> []) by (intros ->; discriminate).
+  pose proof (pos_not_end _ _ _ Hp Hne) as Hend.
+  unfold dec_string. replace (zlen p <=? off)%Z with false by lia.
+  apply (dec_bytes_sim ml p off r1 l r2); assumption.
+Qed.
+
+Lemma dec_varint_field_sim p off r1 x r : pos p off r1 -> vspec r1 = Some (x, r) ->
+  exists off', pos p off' r /\
+    dec_int64 p off = Ok (int_of_u64 x, off') /\
+    dec_uint32 p off = (if MaxUint32 <? x then E else Ok (x, off')).
+Proof.
+  intros Hp Hv. destruct (pos_varint _ _ _ _ _ Hp Hv) as (n & Hd & Hn & Hp2 & _).
+  exists (off + n)%Z. split; [exact Hp2|].
+  assert (Hne : r1 <> []) by (intros ->; discriminate).
+  pose proof (pos_not_end _ _ _ Hp Hne) as Hend.
+  unfold dec_int64, dec_uint32. replace (zlen p <=? off)%Z with false by lia.
+  rewrite (pos_slice _ _ _ Hp). cbn [bind]. rewrite Hd. cbn [bind].
+  replace (n =? 0)%Z with false by lia. split; reflexivity.
+Qed.
+
+Lemma dec_fixed64_sim p off r1 : pos p off r1 -> (8 <= length r1)%nat ->
+  dec_fixed64 p off = Ok (of_le (firstn 8 r1), (off + 8)%Z) /\ pos p (off + 8) (skipn 8 r1).
+Proof.
+  intros Hp Hl. split; [|apply (pos_skip _ _ _ 8 Hp Hl)].
+  assert (Hne : r1 <> []) by (intros ->; cbn [length] in Hl; lia).
+  pose proof (pos_not_end _ _ _ Hp Hne) as Hend.
+  unfold dec_fixed64. replace (zlen p <=? off)%Z with false by lia.
+  rewrite (pos_slice _ _ _ Hp). cbn [bind].
+  replace (Nat.ltb (length r1) 8) with false by (symmetry; apply Nat.ltb_ge; exact Hl). reflexivity.
+Qed.
+
+Definition len_within (ml : N) (v : wval) : Prop := match v with WLen q => lenN q <= ml | _ => True end.
+
+Lemma lenN_firstn (l : N) (r : bytes) : l <= lenN r -> lenN (firstn (N.to_nat l) r) = l.
+Proof. intros H. unfold lenN in *. rewrite firstn_length. lia. Qed.
+
+Lemma dec_skip_shape ml p off rest key r1 num v r tag :
+  (zlen p <= max_int)%Z -> ml < two63 -> vspec rest = Some (key, r1) -> pos p off r1 ->
+  shape rest num v r -> len_within ml v ->
+  exists off', dec_skip ml p off tag (key mod 8) = Ok off' /\ pos p off' r.
+Proof.
+  intros Hmax Hml Hk Hp Hs Hlw. pose proof (pos_zlen _ _ _ Hp) as Hz. pose proof (proj1 Hp) as Ho.
+  assert (Hbof : forall sk, (0 <= sk)%Z -> (off + sk <= zlen p)%Z ->
+            slice3 p (Z.max 0 (off - Z.of_N (sizeof_varint (u64 (tag * 8))))) (off + sk) = Ok
+              (firstn (Z.to_nat (off + sk - Z.max 0 (off - Z.of_N (sizeof_varint (u64 (tag * 8))))))
+                 (skipn (Z.to_nat (Z.max 0 (off - Z.of_N (sizeof_varint (u64 (tag * 8)))))) p))).
+  { intros sk H1 H2. apply slice3_ok; lia. }
+  unfold dec_skip.
+  destruct Hs as [key' r1' x r Hk' _ Hw Hv|key' r1' Hk' _ Hw Hl|key' r1' l r2 Hk' _ Hw Hv Hl|key' r1' Hk' _ Hw Hl];
+    rewrite Hk in Hk'; inversion Hk'; subst key' r1'; rewrite Hw.
+  - destruct (pos_varint _ _ _ _ _ Hp Hv) as (n & Hd & Hn & Hp' & _).
+    assert (Hne : r1 <> []) by (intros ->; discriminate). pose proof (pos_not_end _ _ _ Hp Hne).
+    replace (zlen p <=? off)%Z with false by lia.
+    cbn [N.eqb Pos.eqb]. rewrite (pos_slice _ _ _ Hp). cbn [bind]. rewrite Hd. cbn [bind].
+    pose proof (proj1 Hp') as Ho'.
+    replace (zlen p <? off + n)%Z with false by lia. rewrite Hbof by lia. cbn [bind].
+    exists (off + n)%Z. split; [reflexivity|exact Hp'].
+  - assert (Hne : r1 <> []) by (intros ->; cbn [length] in Hl; lia). pose proof (pos_not_end _ _ _ Hp Hne).
+    replace (zlen p <=? off)%Z with false by lia.
+    change (1 =? 0) with false. change (1 =? 1) with true. cbn [bind].
+    replace (zlen p <? off + 8)%Z with false by (unfold zlen in *; lia).
+    rewrite Hbof by (unfold zlen in *; lia). cbn [bind].
+    exists (off + 8)%Z. split; [reflexivity|]. apply (pos_skip _ _ _ 8 Hp Hl).
+  - destruct (pos_varint _ _ _ _ _ Hp Hv) as (n & Hd & Hn & Hp' & _).
+    assert (Hne : r1 <> []) by (intros ->; discriminate). pose proof (pos_not_end _ _ _ Hp Hne).
+    replace (zlen p <=? off)%Z with false by lia.
+    change (2 =? 0) with false. change (2 =? 1) with false. change (2 =? 2) with true.
+    rewrite (pos_slice _ _ _ Hp). cbn [bind]. rewrite Hd. cbn [bind].
+    destruct (len_check_ok _ _ _ _ Hp' Hmax Hl) as (Hc & Hi & Hle & Hnat).
+    cbn [len_within] in Hlw. rewrite lenN_firstn in Hlw by exact Hl.
+    replace (n =? 0)%Z with false by lia. replace (ml <? l) with false by lia. rewrite Hi. cbn [bind].
+    assert (Hle' : (N.to_nat l <= length r2)%nat) by lia.
+    pose proof (pos_skip _ _ _ _ Hp' Hle') as Hp3. pose proof (proj1 Hp3) as Ho3.
+    replace (zlen p <? off + (n + Z.of_N l))%Z with false by lia. rewrite Hbof by lia. cbn [bind].
+    exists (off + (n + Z.of_N l))%Z. split; [reflexivity|].
+    replace (off + (n + Z.of_N l))%Z with (off + n + Z.of_nat (N.to_nat l))%Z by lia. exact Hp3.
+  - assert (Hne : r1 <> []) by (intros ->; cbn [length] in Hl; lia). pose proof (pos_not_end _ _ _ Hp Hne).
+    replace (zlen p <=? off)%Z with false by lia.
+    change (5 =? 0) with false. change (5 =? 1) with false. change (5 =? 2) with false. change (5 =? 5) with true.
+    cbn [bind]. replace (zlen p <? off + 4)%Z with false by (unfold zlen in *; lia).
+    rewrite Hbof by (unfold zlen in *; lia). cbn [bind].
+    exists (off + 4)%Z. split; [reflexivity|]. apply (pos_skip _ _ _ 4 Hp Hl).
+Qed.
+
+(* the typed readers of snapshot/utils.go on a grammatical field whose key has been read:
+   [off'] is the offset of the next field *)
+Section Readers.
+  Variables (ml : N) (p rest r1 rest' : bytes) (off off' : Z) (key num : N) (v : wval).
+  Hypothesis Hmax : (zlen p <= max_int)%Z.
+  Hypothesis Hml : ml < two63.
+  Hypothesis Hk : vspec rest = Some (key, r1).
+  Hypothesis Hp1 : pos p off r1.
+  Hypothesis Hs : shape rest num v rest'.
+  Hypothesis Hp' : pos p off' rest'.
+
+  Lemma get_bytes_shape : len_within ml v ->
+    get_bytes ml p off (key mod 8) = match v with WLen q => Ok (q, off') | _ => E end.
+  Proof.
+    intros Hlw. unfold get_bytes.
+    destruct Hs as [key' r1' x r Hk' _ Hw Hv|key' r1' Hk' _ Hw Hl|key' r1' l r2 Hk' _ Hw Hv Hl|key' r1' Hk' _ Hw Hl];
+      rewrite Hk in Hk'; inversion Hk'; subst key' r1'; wt_eval Hw; try reflexivity.
+    cbn [len_within] in Hlw. rewrite lenN_firstn in Hlw by exact Hl.
+    destruct (dec_bytes_sim ml p off r1 l r2 Hp1 Hmax Hml Hv Hl Hlw) as (o & -> & Hpo).
+    rewrite (pos_unique _ _ _ _ Hpo Hp'). reflexivity.
+  Qed.
+
+  Lemma get_string_shape : len_within ml v ->
+    get_string ml p off (key mod 8) = match v with WLen q => Ok (q, off') | _ => E end.
+  Proof.
+    intros Hlw. unfold get_string.
+    destruct Hs as [key' r1' x r Hk' _ Hw Hv|key' r1' Hk' _ Hw Hl|key' r1' l r2 Hk' _ Hw Hv Hl|key' r1' Hk' _ Hw Hl];
+      rewrite Hk in Hk'; inversion Hk'; subst key' r1'; wt_eval Hw; try reflexivity.
+    cbn [len_within] in Hlw. rewrite lenN_firstn in Hlw by exact Hl.
+    destruct (dec_string_sim ml p off r1 l r2 Hp1 Hmax Hml Hv Hl Hlw) as (o & -> & Hpo).
+    rewrite (pos_unique _ _ _ _ Hpo Hp'). reflexivity.
+  Qed.
+
+  Lemma get_int64_shape :
+    get_int64 p off (key mod 8) = match v with WVar x => Ok (to_int64 x, off') | _ => E end.
+  Proof.
+    unfold get_int64.
+    destruct Hs as [key' r1' x r Hk' _ Hw Hv|key' r1' Hk' _ Hw Hl|key' r1' l r2 Hk' _ Hw Hv Hl|key' r1' Hk' _ Hw Hl];
+      rewrite Hk in Hk'; inversion Hk'; subst key' r1'; wt_eval Hw; try reflexivity.
+    destruct (dec_varint_field_sim p off r1 x r Hp1 Hv) as (o & Hpo & -> & _).
+    rewrite (pos_unique _ _ _ _ Hpo Hp'). reflexivity.
+  Qed.
+
+  Lemma get_uint32_shape :
+    get_uint32 p off (key mod 8) =
+    match v with WVar x => if MaxUint32 <? x then E else Ok (x, off') | _ => E end.
+  Proof.
+    unfold get_uint32.
+    destruct Hs as [key' r1' x r Hk' _ Hw Hv|key' r1' Hk' _ Hw Hl|key' r1' l r2 Hk' _ Hw Hv Hl|key' r1' Hk' _ Hw Hl];
+      rewrite Hk in Hk'; inversion Hk'; subst key' r1'; wt_eval Hw; try reflexivity.
+    destruct (dec_varint_field_sim p off r1 x r Hp1 Hv) as (o & Hpo & _ & ->).
+    rewrite (pos_unique _ _ _ _ Hpo Hp'). reflexivity.
+  Qed.
+
+  Lemma get_fixed64_shape :
+    get_fixed64 p off (key mod 8) = match v with WF64 x => Ok (x, off') | _ => E end.
+  Proof.
+    unfold get_fixed64.
+    destruct Hs as [key' r1' x r Hk' _ Hw Hv|key' r1' Hk' _ Hw Hl|key' r1' l r2 Hk' _ Hw Hv Hl|key' r1' Hk' _ Hw Hl];
+      rewrite Hk in Hk'; inversion Hk'; subst key' r1'; wt_eval Hw; try reflexivity.
+    destruct (dec_fixed64_sim p off r1 Hp1 Hl) as (-> & Hpo).
+    rewrite (pos_unique _ _ _ _ Hpo Hp'). reflexivity.
+  Qed.
+
+  Lemma dec_skip_shape' tag : len_within ml v -> dec_skip ml p off tag (key mod 8) = Ok off'.
+  Proof.
+    intros Hlw. destruct (dec_skip_shape ml p off rest key r1 num v rest' tag Hmax Hml Hk Hp1 Hs Hlw) as (o & -> & Hpo).
+    rewrite (pos_unique _ _ _ _ Hpo Hp'). reflexivity.
+  Qed.
+End Readers.
+
+(* ---- Meta.Unmarshal = spec_meta ---- *)
+
+Lemma meta_body_sim p off rest num v rest' m :
+  pos p off rest -> (zlen p <= max_int)%Z -> parse_field rest = Some ((num, v), rest') ->
+  meta_field_ok (num, v) = true ->
+  exists off', pos p off' rest' /\ (off < off')%Z /\
+    meta_body p (off, m) = (do m' <- spec_meta_step (num, v) m; Ok (inl (off', m'))).
+Proof.
+  intros Hp Hmax Hf Hok. destruct (parse_field_shape _ _ _ _ Hf) as [Hs Hnum].
+  destruct (shape_next _ _ _ _ _ _ Hp Hmax Hs) as (off' & Hp' & Hlt).
+  exists off'. split; [exact Hp'|]. split; [lia|].
+  destruct (shape_key _ _ _ _ Hs) as (key & r1 & Hk & Hkn).
+  unfold meta_field_ok in Hok. apply andb_prop in Hok. destruct Hok as [Hok1 Hok2].
+  assert (Hlw : len_within MaxFieldLenDefault v) by (destruct v; cbn [len_within]; try exact I; lia).
+  destruct (dec_tag_sim p off rest key r1 Hp Hk ltac:(lia)) as (off1 & Hdt & Hp1 & Hlt1).
+  assert (Hne : rest <> []) by (intros ->; discriminate).
+  pose proof (pos_not_end _ _ _ Hp Hne) as Hend.
+  pose proof maxlen_default_small as Hml.
+  unfold meta_body, spec_meta_step. replace (zlen p <=? off)%Z with false by lia.
+  rewrite Hdt. cbn [bind]. rewrite Hkn.
+  pose proof (get_string_shape MaxFieldLenDefault p rest r1 rest' off1 off' key num v Hmax Hml Hk Hp1 Hs Hp' Hlw) as Gs.
+  pose proof (get_int64_shape p rest r1 rest' off1 off' key num v Hk Hp1 Hs Hp') as Gi.
+  pose proof (get_fixed64_shape p rest r1 rest' off1 off' key num v Hk Hp1 Hs Hp') as Gf.
+  pose proof (dec_skip_shape' MaxFieldLenDefault p rest r1 rest' off1 off' key num v Hmax Hml Hk Hp1 Hs Hp' num Hlw) as Gk.
+  destruct (num =? 1); [rewrite Gs; destruct v; reflexivity|].
+  destruct (num =? 2); [rewrite Gs; destruct v; reflexivity|].
+  destruct (num =? 3); [rewrite Gs; destruct v; reflexivity|].
+  destruct (num =? 4); [rewrite Gi; destruct v; reflexivity|].
+  destruct (num =? 5); [rewrite Gf; destruct v; reflexivity|].
+  destruct (num =? 7); [rewrite Gs; destruct v; reflexivity|].
+  destruct (num =? 8); [rewrite Gi; destruct v; reflexivity|].
+  rewrite Gk. reflexivity.
+Qed.
+
+Lemma meta_loop_sim p : (zlen p <= max_int)%Z -> forall fs fuel off rest m,
+  pos p off rest -> wire_parse rest = Some fs -> forallb meta_field_ok fs = true ->
+  (length rest < fuel)%nat ->
+  loop (meta_body p) fuel (off, m) = spec_meta_fold fs m.
+Proof.
+  intros Hmax. induction fs as [|[num v] fs IH]; intros fuel off rest m Hp Hw Hok Hf.
+  - apply wire_parse_nil_inv in Hw. subst rest. destruct fuel as [|fuel]; [lia|].
+    cbn [loop spec_meta_fold]. unfold meta_body. rewrite (pos_end _ _ Hp), Z.leb_refl. reflexivity.
+  - destruct (wire_parse_inv _ _ _ Hw) as (r & Hpf & Hwr & _).
+    cbn [forallb] in Hok. apply andb_prop in Hok. destruct Hok as [Hok1 Hok].
+    destruct fuel as [|fuel]; [lia|]. cbn [loop spec_meta_fold].
+    destruct (meta_body_sim p off rest num v r m Hp Hmax Hpf Hok1) as (off' & Hp' & Hlt & ->).
+    destruct (spec_meta_step (num, v) m) as [m'|err| |]; cbn [bind]; try reflexivity.
+    apply (IH fuel off' r m' Hp' Hwr Hok). pose proof (parse_field_shorter _ _ _ Hpf). lia.
+Qed.
+
+Theorem meta_unmarshal_spec p m : (zlen p <= max_int)%Z -> meta_ok p = true ->
+  meta_unmarshal p m = spec_meta p m.
+Proof.
+  intros Hmax Hok. unfold meta_ok in Hok. unfold meta_unmarshal, spec_meta.
+  destruct (wire_parse p) as [fs|] eqn:Hw; [|discriminate].
+  apply (meta_loop_sim p Hmax fs (S (length p)) 0%Z p m (pos_start p) Hw Hok). lia.
+Qed.
+
+(* ---- Snapshot.Unmarshal = the shallow pass over the top-level fields ---- *)
+
+Definition sub_fields (q : bytes) : list field := match wire_parse q with Some fs => fs | None => [] end.
+
+(* what Unmarshal does with one top-level field: scalars, the merged Meta, and for a DBI only the index
+   pass (the entries are read later, by the iteration) *)
+Definition shallow_step (f : field) (so : snap_obj) : res snap_obj :=
+  let '(num, v) := f in
+  if num =? 1 then match v with WVar x => Ok (mkSnapObj x (so_compat so) (so_meta so) (so_dbis so)) | _ => E end
+  else if num =? 4 then match v with WVar x => Ok (mkSnapObj (so_fmt so) x (so_meta so) (so_dbis so)) | _ => E end
+  else if num =? 2 then
+    match v with
+    | WLen q => do m <- spec_meta q (so_meta so); Ok (mkSnapObj (so_fmt so) (so_compat so) m (so_dbis so))
+    | _ => E
+    end
+  else if num =? 3 then
+    match v with
+    | WLen q => do t <- idx_fold (sub_fields q) idx0;
+                Ok (mkSnapObj (so_fmt so) (so_compat so) (so_meta so)
+                      (so_dbis so ++ [mkObj (fst (fst t)) (snd (fst t)) (snd t) q 0]))
+    | _ => E
+    end
+  else Ok so.
+Fixpoint shallow_fold (fs : list field) (so : snap_obj) : res snap_obj :=
+  match fs with
+  | [] => Ok so
+  | f :: r => do so' <- shallow_step f so; shallow_fold r so'
+  end.
+
+Lemma lenN_zlen (q : bytes) (k : N) : lenN q <= k -> k < two63 -> (zlen q <= max_int)%Z.
+Proof. unfold lenN, zlen, two63, max_int. lia. Qed.
+
+Lemma snap_body_sim p off rest num v rest' so :
+  pos p off rest -> (zlen p <= max_int)%Z -> parse_field rest = Some ((num, v), rest') ->
+  snap_field_ok (num, v) = true ->
+  exists off', pos p off' rest' /\ (off < off')%Z /\
+    snap_body p (off, so) = (do so' <- shallow_step (num, v) so; Ok (inl (off', so'))).
+Proof.
+  intros Hp Hmax Hf Hok. destruct (parse_field_shape _ _ _ _ Hf) as [Hs Hnum].
+  destruct (shape_next _ _ _ _ _ _ Hp Hmax Hs) as (off' & Hp' & Hlt).
+  exists off'. split; [exact Hp'|]. split; [lia|].
+  destruct (shape_key _ _ _ _ Hs) as (key & r1 & Hk & Hkn).
+  unfold snap_field_ok in Hok. apply andb_prop in Hok. destruct Hok as [Hok1 Hok2].
+  assert (Hlw : len_within MaxFieldLength v).
+  { destruct v; cbn [len_within]; try exact I. apply andb_prop in Hok2. lia. }
+  destruct (dec_tag_sim p off rest key r1 Hp Hk ltac:(lia)) as (off1 & Hdt & Hp1 & Hlt1).
+  assert (Hne : rest <> []) by (intros ->; discriminate).
+  pose proof (pos_not_end _ _ _ Hp Hne) as Hend.
+  pose proof maxlen_snapshot_small as Hml.
+  unfold snap_body, shallow_step. replace (zlen p <=? off)%Z with false by lia.
+  rewrite Hdt. cbn [bind]. rewrite Hkn.
+  pose proof (get_bytes_shape MaxFieldLength p rest r1 rest' off1 off' key num v Hmax Hml Hk Hp1 Hs Hp' Hlw) as Gb.
+  pose proof (get_uint32_shape p rest r1 rest' off1 off' key num v Hk Hp1 Hs Hp') as Gu.
+  pose proof (dec_skip_shape' MaxFieldLength p rest r1 rest' off1 off' key num v Hmax Hml Hk Hp1 Hs Hp' num Hlw) as Gk.
+  destruct (num =? 1) eqn:N1.
+  { rewrite Gu. destruct v; try reflexivity. rewrite Bool.orb_true_l in Hok2.
+    unfold MaxUint32. replace (4294967295 <? v) with false by (unfold two32 in Hok2; lia). reflexivity. }
+  destruct (num =? 4) eqn:N4.
+  { rewrite Gu. destruct v; try reflexivity. rewrite Bool.orb_true_r in Hok2.
+    unfold MaxUint32. replace (4294967295 <? v) with false by (unfold two32 in Hok2; lia). reflexivity. }
+  destruct (num =? 2) eqn:N2.
+  { rewrite Gb. destruct v; try reflexivity. cbn [bind]. apply andb_prop in Hok2. destruct Hok2 as [Hl Hmo].
+    rewrite meta_unmarshal_spec; [|apply (lenN_zlen p0 MaxFieldLength); [lia|exact Hml]|exact Hmo].
+    destruct (spec_meta p0 (so_meta so)); reflexivity. }
+  destruct (num =? 3) eqn:N3.
+  { rewrite Gb. destruct v; try reflexivity. cbn [bind]. apply andb_prop in Hok2. destruct Hok2 as [Hl Hdo].
+    unfold dbi_ok in Hdo. unfold sub_fields. destruct (wire_parse p0) as [fsq|] eqn:Hwq; [|discriminate].
+    rewrite (new_dbi_from_data_spec p0 fsq); [|apply (lenN_zlen p0 MaxFieldLength); [lia|exact Hml]|exact Hwq].
+    destruct (idx_fold fsq idx0) as [t|err| |]; reflexivity. }
+  rewrite Gk. reflexivity.
+Qed.
+
+Lemma snap_loop_sim p : (zlen p <= max_int)%Z -> forall fs fuel off rest so,
+  pos p off rest -> wire_parse rest = Some fs -> forallb snap_field_ok fs = true ->
+  (length rest < fuel)%nat ->
+  loop (snap_body p) fuel (off, so) = shallow_fold fs so.
+Proof.
+  intros Hmax. induction fs as [|[num v] fs IH]; intros fuel off rest so Hp Hw Hok Hf.
+  - apply wire_parse_nil_inv in Hw. subst rest. destruct fuel as [|fuel]; [lia|].
+    cbn [loop shallow_fold]. unfold snap_body. rewrite (pos_end _ _ Hp), Z.leb_refl. reflexivity.
+  - destruct (wire_parse_inv _ _ _ Hw) as (r & Hpf & Hwr & _).
+    cbn [forallb] in Hok. apply andb_prop in Hok. destruct Hok as [Hok1 Hok].
+    destruct fuel as [|fuel]; [lia|]. cbn [loop shallow_fold].
+    destruct (snap_body_sim p off rest num v r so Hp Hmax Hpf Hok1) as (off' & Hp' & Hlt & ->).
+    destruct (shallow_step (num, v) so) as [so'|err| |]; cbn [bind]; try reflexivity.
+    apply (IH fuel off' r so' Hp' Hwr Hok). pose proof (parse_field_shorter _ _ _ Hpf). lia.
+Qed.
+
+(* ---- the two passes together = the schema specification ---- *)
+
+Lemma spec_meta_step_okE f m : okE (spec_meta_step f m).
+Proof.
+  destruct f as [num v]. unfold spec_meta_step.
+  repeat (match goal with |- okE (if ?c then _ else _) => destruct c end);
+    try (destruct v; first [apply okE_Ok|apply okE_E]); try apply okE_Ok.
+Qed.
+Lemma spec_meta_fold_okE fs : forall m, okE (spec_meta_fold fs m).
+Proof.
+  induction fs as [|f fs IH]; intros m; cbn [spec_meta_fold]; [apply okE_Ok|].
+  apply okE_bind; [apply spec_meta_step_okE|exact IH].
+Qed.
+Lemma spec_meta_okE q m : okE (spec_meta q m).
+Proof. unfold spec_meta. destruct (wire_parse q); [apply spec_meta_fold_okE|apply okE_E]. Qed.
+
+Lemma mapM_app1 {A B : Type} (f : A -> res B) (l : list A) (x : A) :
+  mapM f (l ++ [x]) = (do ys <- mapM f l; do y <- f x; Ok (ys ++ [y])).
+Proof.
+  induction l as [|a l IH]; cbn [app mapM].
+  - destruct (f x); reflexivity.
+  - destruct (f a) as [b| | |]; cbn [bind]; try reflexivity. rewrite IH.
+    destruct (mapM f l) as [ys| | |]; cbn [bind]; try reflexivity.
+    destruct (f x); reflexivity.
+Qed.
+
+Definition objs_small (l : list dbi_obj) : Prop := Forall (fun o => (zlen (o_data o) <= max_int)%Z) l.
+
+Lemma contents_okE l : objs_small l -> okE (mapM dbi_content l).
+Proof.
+  intros H. apply (safe_okE (Forall (fun _ => True))).
+  apply (mapM_safe dbi_content _ (fun _ => True) l H). intros o Ho. apply dbi_content_safe, Ho.
+Qed.
+
+Definition finish (so : snap_obj) : res snap :=
+  do ds <- mapM dbi_content (so_dbis so); Ok (mkSnap (so_fmt so) (so_compat so) (so_meta so) ds).
+
+Lemma two_passes fs : forall so, forallb snap_field_ok fs = true -> objs_small (so_dbis so) ->
+  (do so' <- shallow_fold fs so; finish so') =
+  (do ds0 <- mapM dbi_content (so_dbis so);
+   spec_snapshot_fold fs (mkSnap (so_fmt so) (so_compat so) (so_meta so) ds0)).
+Proof.
+  induction fs as [|[num v] fs IH]; intros so Hok Hsm; [reflexivity|].
+  cbn [forallb] in Hok. apply andb_prop in Hok. destruct Hok as [Hok1 Hok].
+  pose proof (contents_okE _ Hsm) as HX.
+  cbn [shallow_fold spec_snapshot_fold]. unfold shallow_step, spec_snapshot_step.
+  cbn [s_fmt s_compat s_meta s_dbis].
+  unfold snap_field_ok in Hok1. apply andb_prop in Hok1. destruct Hok1 as [_ Hok2].
+  (* a top-level error after the DBIs decoded so far is the same error *)
+  assert (HE : (do ds0 <- mapM dbi_content (so_dbis so); @E snap) = E).
+  { destruct HX as [[ds ->]| ->]; reflexivity. }
+  destruct (num =? 1) eqn:N1.
+  { replace (num =? 2) with false by lia. replace (num =? 3) with false by lia. replace (num =? 4) with false by lia.
+    destruct v; cbn [bind]; try (symmetry; destruct HX as [[ds ->]| ->]; reflexivity).
+    rewrite Bool.orb_true_l in Hok2. rewrite (N.mod_small v two32) by lia.
+    rewrite (IH _ Hok); [reflexivity|exact Hsm]. }
+  destruct (num =? 4) eqn:N4.
+  { replace (num =? 2) with false by lia. replace (num =? 3) with false by lia.
+    destruct v; cbn [bind]; try (symmetry; destruct HX as [[ds ->]| ->]; reflexivity).
+    rewrite Bool.orb_true_r in Hok2. rewrite (N.mod_small v two32) by lia.
+    rewrite (IH _ Hok); [reflexivity|exact Hsm]. }
+  destruct (num =? 2) eqn:N2.
+  { destruct v; cbn [bind]; try (symmetry; destruct HX as [[ds ->]| ->]; reflexivity).
+    destruct (spec_meta_okE p (so_meta so)) as [[m Hm]|Hm]; rewrite Hm; cbn [bind].
+    - rewrite (IH _ Hok); [|exact Hsm]. cbn [so_dbis so_fmt so_compat so_meta].
+      destruct HX as [[ds ->]| ->]; cbn [bind]; rewrite ?Hm; reflexivity.
+    - destruct HX as [[ds ->]| ->]; cbn [bind]; rewrite ?Hm; reflexivity. }
+  destruct (num =? 3) eqn:N3.
+  { destruct v; cbn [bind]; try (symmetry; destruct HX as [[ds ->]| ->]; reflexivity).
+    apply andb_prop in Hok2. destruct Hok2 as [Hl Hdo].
+    unfold dbi_ok in Hdo. unfold sub_fields, spec_dbi. destruct (wire_parse p) as [fsq|] eqn:Hwq; [|discriminate].
+    assert (Hq : (zlen p <= max_int)%Z) by (apply (lenN_zlen p MaxFieldLength); [lia|exact maxlen_snapshot_small]).
+    change dbi0 with (mkDbi [] 0 [] []). rewrite spec_dbi_two_pass. change ([], 0, []) with idx0.
+    destruct (idx_fold_okE fsq idx0) as [[t Ht]|Ht]; rewrite Ht; cbn [bind].
+    - rewrite (IH _ Hok); [|apply Forall_app; split; [exact Hsm|constructor; [exact Hq|constructor]]].
+      cbn [so_dbis so_fmt so_compat so_meta]. rewrite mapM_app1.
+      destruct HX as [[ds ->]| ->]; cbn [bind]; [|reflexivity].
+      unfold dbi_content. cbn [o_data o_name o_flags o_transform].
+      rewrite (all_entries_spec p fsq Hq Hwq Hdo).
+      destruct (ent_fold fsq []) as [es|err| |]; reflexivity.
+    - destruct HX as [[ds ->]| ->]; reflexivity. }
+  cbn [bind]. rewrite (IH _ Hok); [|exact Hsm].
+  destruct HX as [[ds ->]| ->]; reflexivity.
+Qed.
+
+(* C07_forward_compat *)
+Theorem forward_compat m fs : (zlen m <= max_int)%Z ->
+  wire_parse m = Some fs -> schema_ok fs = true -> custom_decode m = spec_snapshot fs.
+Proof.
+  intros Hmax Hw Hok. unfold custom_decode, snap_unmarshal, schema_ok in *.
+  rewrite (snap_loop_sim m Hmax fs (S (length m)) 0%Z m (mkSnapObj 0 0 meta0 []) (pos_start m) Hw Hok ltac:(lia)).
+  pose proof (two_passes fs (mkSnapObj 0 0 meta0 []) Hok ltac:(constructor)) as H.
+  unfold finish in H. cbn [so_dbis so_fmt so_compat so_meta mapM bind] in H. exact H.
+Qed.
